@@ -129,6 +129,13 @@ def run(ctx):
                         idx = [i for i, e in enumerate(t.elts) if isinstance(e, ast.Name) and e.id == "notconverged"][0]
                         val = st.value
                         ca = callee_attr(val) if isinstance(val, ast.Call) else None
+                        if isinstance(val, ast.Call) and isinstance(val.func, ast.Name) and not any((ca or "").startswith(p) for p in callee_pat.split("|")):
+                            # a callee chosen through a local: every function the local is bound to must match the pattern
+                            binds = [a_.value for a_ in ast.walk(f) if isinstance(a_, ast.Assign) and any(isinstance(t_, ast.Name) and t_.id == val.func.id for t_ in a_.targets)]
+                            fnames = [b_.id for b_ in binds if isinstance(b_, ast.Name)]
+                            if fnames and all(isinstance(b_, ast.Name) or (isinstance(b_, ast.Constant) and b_.value is None) for b_ in binds) \
+                                    and all(any(n_.startswith(p) for p in callee_pat.split("|")) for n_ in fnames):
+                                ca = fnames[0]
                         if ca and any(ca.startswith(p) for p in callee_pat.split("|")) and idx == pos_in:
                             srcs.append(st)
                         else:
